@@ -149,6 +149,10 @@ func prefixIndex(w *World) (map[uint64]int, uint64) {
 func runIndex(o Opts, mode string) error {
 	rng := rand.New(rand.NewSource(o.Seed))
 	cw := cq.New(o.Out, "From Bluge Require Import Base.Res Index.Model Index.Trace Index.TraceCorr.", "icase", 6)
+	if mode == "c04" {
+		cw.Imports = "From Bluge Require Import Base.Res Index.Model Index.Trace Index.TraceCorr Index.Handles Index.HandlesCorr."
+		cw.CaseType = "hcase"
+	}
 	cw.Extra = "Definition R := Eval vm_compute in rejects cases.\nPrint R.\n"
 	nScen := map[string]int{"c01": 60, "c04": 30, "c05": 40, "c06": 50}[mode]
 	if o.Thorough() {
@@ -214,6 +218,13 @@ func runIndex(o Opts, mode string) error {
 		}
 		nontrivial := st.Intros >= 3 && (st.Merges+st.Swaps > 0 || wo.DirKind == "mem")
 		desc["intros"], desc["swaps"], desc["merges"], desc["observes"] = st.Intros, st.Swaps, st.Merges, st.Observes
+		if mode == "c04" {
+			hev := "[]"
+			if wo.DirKind == "sim" {
+				hev = w.HandleEvents(true)
+			}
+			trace = cq.Pair(trace, hev)
+		}
 		cw.Add(trace, mode+"-"+wo.DirKind, nontrivial, desc)
 		cw.Count("intros", st.Intros)
 		cw.Count("persist_swaps", st.Swaps)
@@ -312,10 +323,12 @@ func scenarioHeldReaders(cw *cq.Writer, w *World, rng *rand.Rand, desc map[strin
 			}
 			uni := w.universeIDs()
 			first := observeReader(r, uni)
+			rkey := i
+			w.Rec.Add(&sim.Event{Kind: "reader-open", Batch: rkey, ID: first.Epoch})
 			w.mu.Lock()
 			w.Observed = append(w.Observed, first)
 			w.mu.Unlock()
-			hs = append(hs, &held{r: r, first: first, check: func() Observation { return observeReader(r, uni) }, age: i})
+			hs = append(hs, &held{r: r, first: first, check: func() Observation { return observeReader(r, uni) }, age: rkey})
 		}
 		recheck(fmt.Sprintf("batch %d", b.Key))
 		if rng.Intn(3) == 0 {
@@ -324,6 +337,7 @@ func scenarioHeldReaders(cw *cq.Writer, w *World, rng *rand.Rand, desc map[strin
 		}
 		if len(hs) > 0 && rng.Intn(5) == 0 {
 			k := rng.Intn(len(hs))
+			w.Rec.Add(&sim.Event{Kind: "reader-close", Batch: hs[k].age}) // logged first: the handle closes it triggers come after
 			hs[k].r.Close()
 			hs = append(hs[:k], hs[k+1:]...)
 		}
@@ -335,6 +349,7 @@ func scenarioHeldReaders(cw *cq.Writer, w *World, rng *rand.Rand, desc map[strin
 	}
 	recheck("writer Close")
 	for _, h := range hs {
+		w.Rec.Add(&sim.Event{Kind: "reader-close", Batch: h.age})
 		h.r.Close()
 	}
 	cw.Count("held_readers", len(hs))
